@@ -97,6 +97,7 @@ class PartitionLog:
     def __init__(self, topic, partition, leader, ts_type=0):
         self.topic = topic
         self.partition = partition
+        self.ever_led = set()         # every node a client may (still) believe to be this partition's leader
         self.leader = leader
         self.prev_leader = leader
         self.ts_type = ts_type        # 0 CreateTime, 1 LogAppendTime
@@ -108,6 +109,16 @@ class PartitionLog:
         self.open_txns = {}           # pid -> first offset
         self.aborted = []             # (pid, first_offset, marker_offset)
         self.waiters = []             # callbacks woken on append
+
+    @property
+    def leader(self):
+        return self._leader
+
+    @leader.setter
+    def leader(self, node_id):
+        self._leader = node_id
+        if node_id is not None and node_id >= 0:
+            self.ever_led.add(node_id)
 
     @property
     def hw(self):
@@ -920,12 +931,35 @@ def _fetch_once(c, ctx):
                 d["log_start_offset"] = -1
             if ver >= 11:
                 d["preferred_read_replica"] = -1
+            rr = getattr(pl, "read_replica", None) if pl is not None else None
+            if rr is not None and (ver < 11 or rr == pl.leader or not body.get("rack_id")):
+                rr = None
+            from_follower = rr is not None and rr == ctx.node.node_id
             if pl is None:
                 d["error"] = UNKNOWN_TOPIC_OR_PARTITION
                 has_error = True
-            elif pl.leader != ctx.node.node_id:
+            elif pl.leader != ctx.node.node_id and not from_follower:
                 d["error"] = NOT_LEADER
                 has_error = True
+            elif rr is not None and not from_follower and pl.log_start <= p["offset"] <= pl.next_offset:
+                # KIP-392: the leader names the replica in the client's rack and sends no records; its knowledge of
+                # that replica's log range may be stale (it learns it from the follower's own fetch requests)
+                d["hw"] = pl.hw
+                d["lso"] = pl.lso
+                d["log_start_offset"] = pl.log_start
+                d["preferred_read_replica"] = rr
+                has_error = True        # answered at once, not parked as a long poll
+                ctx.arrival.extra.setdefault("redirected", []).append((t["topic"], p["partition"], p["offset"], rr))
+            elif from_follower and rr not in pl.ever_led and \
+                    p["offset"] < max(pl.log_start, getattr(pl, "follower_start", 0)):
+                # the follower's own retention is ahead of the leader's: it no longer has the offset.  The leader learns
+                # the follower's range with its next replica fetch and stops naming it.  Only a node that never led the
+                # partition does this: a client that takes the node for the leader (stale metadata) cannot tell this
+                # answer from the leader's own and rightly resets (so does the Java consumer).
+                d["error"] = OFFSET_OUT_OF_RANGE
+                has_error = True
+                pl.read_replica = None
+                ctx.arrival.extra.setdefault("follower_oor", []).append((t["topic"], p["partition"], p["offset"]))
             else:
                 off = p["offset"]
                 d["hw"] = pl.hw
